@@ -36,6 +36,10 @@ def write_scenes(path, scenes):
             row.append(len(s['conns']))
             for c in s['conns']:
                 row += list(c)
+            cps = s.get('cps', [])          # (connector index, x, y)
+            row.append(len(cps))
+            for cp in cps:
+                row += list(cp)
             f.write(' '.join(map(str, row)) + '\n')
 
 
